@@ -65,3 +65,80 @@ def run_into(rep, prop):
             rep.rejected(rej["clause"], {"kind": "inflight_change", "scenario": full[cid]["job"], "observed": full[cid]["obs"],
                                          "methods_after": full[cid]["live_after"], "case_id": cid}, {})
     rep.extra["inflight_change_scenarios"] = len(cases)
+
+
+LF_METHODS = {
+    "m1": worlds.mkmethod("m1", 1, [2], body="leaf"),
+    "own2": worlds.mkmethod("own2", 2, [3], body="leaf"),
+    "late": worlds.mkmethod("late", 3, [4], body="leaf"),
+}
+
+
+def linkfail_into(rep, prop):
+    """A change on a parent whose propagation fails in one linked child (C16: the change shows up in every child it
+    can; C18: never a silently stale table).  P and the healthy child C2 are judged with the documented rule over
+    the method set with the new method - or, if the registration was refused as a whole, without it."""
+    res = pool.run(workers.linkfail_cases, [{"id": f"{prop}-linkfail-{o}", "order": o} for o in ("c1first", "c2first")], procs=2)
+    bugs = [c for c in res if "skip" in c]
+    if bugs:
+        rep.machinery_failure("harness error (link failure): " + bugs[0]["skip"])
+    cases = []
+    full = {}
+    for c in [c for c in res if "skip" not in c]:
+        took = c["P"]["K4"]["kind"] == "run"     # did the parent get the method?
+        for node, own in (("P", []), ("C2", ["own2"])):
+            ids = ["m1"] + own + (["late"] if took else [])
+            ms = []
+            for j, mid in enumerate(ids):
+                m = dict(LF_METHODS[mid])
+                m["reg"] = j + 1
+                ms.append(m)
+            steps = []
+            for cls_, cid in (("K4", 4), ("K3", 3)):
+                o = c[node][cls_]
+                call = {"pos": [{"c": cid}], "kwn": [], "kwa": []}
+                steps.append({"call": call, "obs": {"kind": o["kind"], "resolve": {"kind": "skip", "m": ""},
+                                                    "entered": [{"m": mid, "call": call, "next": {"has": False, "call": {"pos": [], "kwn": [], "kwa": []}}} for mid in o["entered"]]}})
+            cid_ = f"{c['id']}-{node}"
+            full[cid_] = c
+            cases.append({"id": cid_, "props": [prop + "N"], "world": {"parents": PAR, "methods": ms}, "steps": steps})
+    if not cases:
+        return
+    v, r = tlc.judge("Trace_Resolve", cases)
+    rep.add_tlc(r, "judge Trace_Resolve (parent and healthy child after a propagation that failed in another child)")
+    rep.judged += len(v)
+    for cid, x in v.items():
+        rep.evaluations += 2
+        rep.note_nontrivial(cid)
+        for rej in static.rejections(x):
+            rep.rejected(rej["clause"].replace("recursion_after_change", "change_reaches_every_linked_child").replace("change_during_call", "change_reaches_every_linked_child"),
+                         {"kind": "link_failure", "scenario": full[cid]["job"], "register": full[cid]["register"],
+                          "P": full[cid]["P"], "C2": full[cid]["C2"], "case_id": cid}, {})
+    rep.extra["link_failure_scenarios"] = len(cases)
+
+
+def parent_invalid_into(rep):
+    """C18: an invalid method registered on a parent in use: every linked child's method set now contains it, so a
+    call on a child is a configuration error too (never an answer from the table built before the change)."""
+    res = pool.run(workers.linkfail_cases, [{"id": "C18-parentinvalid", "order": "c1first", "kind": "parent_invalid"}], procs=1)
+    bugs = [c for c in res if "skip" in c]
+    if bugs:
+        rep.machinery_failure("harness error (invalid method on a parent): " + bugs[0]["skip"])
+        return
+    c = res[0]
+    cases = []
+    for node in ("P", "C2"):
+        o = c[node]["K3"]
+        call = {"pos": [{"c": 3}], "kwn": [], "kwa": []}
+        ms = [dict(LF_METHODS["m1"], reg=1)] + ([dict(LF_METHODS["own2"], reg=2)] if node == "C2" else [])
+        cases.append({"id": f"C18-parentinvalid-{node}", "props": ["C18"], "world": {"parents": PAR, "methods": []},
+                      "steps": [{"call": call, "methods": ms, "allow_config": True, "must_config": True,
+                                 "obs": {"kind": o["kind"], "resolve": {"kind": "skip", "m": ""},
+                                         "entered": [{"m": mid, "call": call, "next": {"has": False, "call": {"pos": [], "kwn": [], "kwa": []}}} for mid in o["entered"]]}}]})
+    v, r = tlc.judge("Trace_Resolve", cases)
+    rep.add_tlc(r, "judge Trace_Resolve (C18Clause: linked child after an invalid method was registered on its parent)")
+    rep.judged += len(v)
+    for cid, x in v.items():
+        rep.evaluations += 1
+        for rej in static.rejections(x):
+            rep.rejected(rej["clause"], {"kind": "parent_invalid", "register": c["register"], "P": c["P"], "C2": c["C2"], "case_id": cid}, {})
